@@ -36,6 +36,26 @@ def _slices():
     if len(inner) != 1 or len(outer[0].body) != 1:
         raise core.CheckerError("anchor mismatch: expected the state loop of Grammar.parser to consist of one `for item in item_sets[i]` loop")
     k = info.node.body.index(outer[0])
+    # names of the locals, read off the code
+    names = {"i": outer[0].target.id if isinstance(outer[0].target, ast.Name) else None, "item": inner[0].target.id if isinstance(inner[0].target, ast.Name) else None}
+    m = __import__("re").match(r"(\w+)\[(\w+)\]$", ast.unparse(inner[0].iter))
+    if m:
+        names["item_sets"] = m.group(1)
+    for n in info.node.body[:k]:
+        if isinstance(n, ast.Assign) and len(n.targets) == 1:
+            t, src = n.targets[0], ast.unparse(n.value)
+            if isinstance(t, ast.Tuple) and len(t.elts) == 2 and src == "self._items()":
+                names["item_sets_decl"], names["goto"] = t.elts[0].id, t.elts[1].id
+            elif isinstance(t, ast.Name) and src == "collections.defaultdict(dict)":
+                names["action"] = t.id
+            elif isinstance(t, ast.Name) and src == "set()":
+                names["conflicts"] = t.id
+            elif isinstance(t, ast.Name) and src.startswith("self._item_cache["):
+                names["end_item"] = t.id
+    missing = [x for x in ("i", "item", "item_sets", "goto", "action", "conflicts", "end_item") if not names.get(x)]
+    if missing or names.get("item_sets_decl") != names.get("item_sets"):
+        raise core.CheckerError("anchor mismatch: Grammar.parser: cannot identify %s" % (missing or ["item_sets"]))
+    info.names = names
     return info, inner[0], info.node.body[:k], info.node.body[k + 1:]
 
 
@@ -83,8 +103,9 @@ def target_action_step():
         goto = {0: {"t": 1, "N": 2}}
         g = GObj("grammar", attrs={"terminals": pyvc.PSet(["t", "u"]), "nonterminals": pyvc.PSet(["N"]), "_seed_production": seed})
         it = pyvc.Interp(c, info)
-        it.env = {"self": g, "item": item, "i": 0, "action": {0: row}, "conflicts": conflicts, "goto": goto, "item_sets": ["IS0", "IS-target", "IS2"],
-                  "end_item": item if is_end else GObj("end-item")}
+        nm = info.names
+        it.env = {"self": g, nm["item"]: item, nm["i"]: 0, nm["action"]: {0: row}, nm["conflicts"]: conflicts, nm["goto"]: goto, nm["item_sets"]: ["IS0", "IS-target", "IS2"],
+                  nm["end_item"]: item if is_end else GObj("end-item")}
         c.covered = True
         it.block(inner.body)
         # demanded action
@@ -148,9 +169,9 @@ def frame_obligations():
                 base = t
                 while isinstance(base, (ast.Subscript, ast.Attribute)):
                     base = base.value
-                if isinstance(base, ast.Name) and base.id in ("action", "conflicts"):
+                if isinstance(base, ast.Name) and base.id in (info.names["action"], info.names["conflicts"]):
                     bad.append("line %d: %s" % (n.lineno, ast.unparse(n)[:80]))
-            if isinstance(n, ast.Call) and isinstance(n.func, ast.Attribute) and isinstance(n.func.value, ast.Name) and n.func.value.id in ("action", "conflicts") \
+            if isinstance(n, ast.Call) and isinstance(n.func, ast.Attribute) and isinstance(n.func.value, ast.Name) and n.func.value.id in (info.names["action"], info.names["conflicts"]) \
                     and n.func.attr in ("clear", "pop", "update", "discard", "remove", "add", "setdefault", "popitem", "difference_update", "intersection_update"):
                 bad.append("line %d: %s" % (n.lineno, ast.unparse(n)[:80]))
     return [core.Obligation("frame.Grammar.parser.statements-after-the-table-loops-write-neither-action-nor-conflicts", core.PROVED if not bad else core.REFUTED, "ast-write-set", time.time() - t0, kind="proof",
